@@ -87,6 +87,8 @@ theorem matchOne_spec (w : World) (auction : Bool) (o : Ord) :
   · simp
   · rename_i hfin
     split
+    · simp
+    split
     · rename_i wi d hwi hd
       split
       · simp
